@@ -119,6 +119,25 @@ func c05Dec(c *ev.Ctx, text, note string) {
 	if !c05Consistent(k.IsFirefighter, k.IsHWKey, k.IsHeadless, k.IsNonce, int(k.TouchPolicy)) {
 		c.Violation("C05:decode:inconsistent", fmt.Sprintf("accepted inconsistent KeyID %s", ev.JSON(k)), cas)
 	}
+	// a decoded value belongs to its caller: whatever the caller does to it, decoding the same text again gives the
+	// value the text spells (a cache or pool that shares memory with earlier results shows here)
+	want := ev.JSON(k)
+	for i := range k.Principals {
+		k.Principals[i] = "scribbled-by-the-caller"
+	}
+	if len(k.Principals) > 0 {
+		k.Principals = append(k.Principals[:0], "root")
+	}
+	k.TransID, k.ReqUser, k.ReqHost, k.ReqIP, k.IsFirefighter, k.IsNonce, k.TouchPolicy = "x", "x", "x", "x", !k.IsFirefighter, !k.IsNonce, 7
+	var k2 *keyid.KeyID
+	var err2 error
+	if p := ev.Guard(func() { k2, err2 = keyid.Unmarshal(text) }); p != "" {
+		c.Violation("C05:panic:"+ev.PanicSite(p), p, cas)
+		return
+	}
+	if err2 != nil || k2 == nil || ev.JSON(k2) != want {
+		c.Violation("C05:decode:depends-on-what-the-caller-did-to-an-earlier-result", fmt.Sprintf("second decode of the same text gives %s (err=%v), the first gave %s; in between the caller modified the first result", ev.JSON(k2), err2, want), cas)
+	}
 }
 
 type kv struct {
@@ -150,7 +169,7 @@ func c05Compose(p []kv) string {
 }
 
 func checkC05(c *ev.Ctx) {
-	c.Rule("encoder: complete product 2^4 flags x touch{-1..4} x usage{0,1,2} x ver{0,1,2,65535} x 6 principal lists x jointly varied 5-value string alphabet, plus 6 literal-escape / control-character strings in each string field of the generating set; decoder: single-field surgeries (delete, 3 case renames, duplicate before/after, retype to null/number/string/array/object/bool-flip) and double surgeries (one field deleted/renamed AND another duplicated or an unknown key added) and structural relocations (a field moved from the top level into a nested object / array / two levels / JSON-in-a-string under an unknown or known key, with and without a top-level copy; a field deleted while another field's string value spells its name) on every field of a generating set of encoder outputs, all flag/touch/ver combinations as texts, a JSON value catalogue, every ordered pair (and triples) of a 17-text set decoded back to back (history independence), byte-substitution neighbourhood of an encoder output, and ALL strings up to length 5 (thorough 6) over a 13-symbol structural alphabet. non-trivial = Marshal succeeded (round-trip checked) or Unmarshal accepted (oracle checked); distinct by text")
+	c.Rule("encoder: complete product 2^4 flags x touch{-1..4} x usage{0,1,2} x ver{0,1,2,65535} x 6 principal lists x jointly varied 5-value string alphabet, plus 6 literal-escape / control-character strings in each string field of the generating set; decoder: single-field surgeries (delete, 3 case renames, duplicate before/after, retype to null/number/string/array/object/bool-flip) and double surgeries (one field deleted/renamed AND another duplicated or an unknown key added) and structural relocations (a field moved from the top level into a nested object / array / two levels / JSON-in-a-string under an unknown or known key, with and without a top-level copy; a field deleted while another field's string value spells its name) on every field of a generating set of encoder outputs, all flag/touch/ver combinations as texts, a JSON value catalogue, every ordered pair (and triples) of a 17-text set decoded back to back (history independence), byte-substitution neighbourhood of an encoder output, and ALL strings up to length 5 (thorough 6) over a 13-symbol structural alphabet. non-trivial = Marshal succeeded (round-trip checked) or Unmarshal accepted (oracle checked, then the result is modified in place and the same text decoded again: results are values of their own); distinct by text")
 	c.Assume("valid UTF-8 strings only (encoding/json replaces invalid UTF-8, which the property excludes)", "the independent decode uses encoding/json into map[string]RawMessage")
 	if c.ReplayCase != nil {
 		var k c05Case
